@@ -9,21 +9,21 @@
 (* checks on every layout that the                                         *)
 (* scope definitions agree and prints the forest.                          *)
 (***************************************************************************)
-EXTENDS XotNsL2, TLC, Json
+EXTENDS XotRender, TLC, Json
 CONSTANT Dump
 E(ns, ln, p, c) == [k |-> "elem", p |-> p, c |-> c, ns |-> ns, ln |-> ln, t |-> <<>>, u |-> "", d |-> FALSE]
 NSN(px, u, p) == [k |-> "nsn", p |-> p, c |-> <<>>, ns |-> "", ln |-> px, t |-> <<>>, u |-> u, d |-> FALSE]
 AT(ns, ln, p) == [k |-> "attr", p |-> p, c |-> <<>>, ns |-> ns, ln |-> ln, t |-> <<118>>, u |-> "", d |-> FALSE]
 Decls(d0, dp) == (IF d0 = "-" THEN <<>> ELSE <<<<"", d0>>>>) \o (IF dp = "-" THEN <<>> ELSE <<<<"p", dp>>>>)
 Add(N, parent, nd) == [Append(N, [nd EXCEPT !.p = parent]) EXCEPT ![parent].c = Append(@, Len(N) + 1)]
-RECURSIVE AddDecls(_, _, _, _)
-AddDecls(N, e, D, j) == IF j > Len(D) THEN N ELSE AddDecls(Add(N, e, NSN(D[j][1], D[j][2], 0)), e, D, j + 1)
+RECURSIVE AddDeclNodes(_, _, _, _)
+AddDeclNodes(N, e, D, j) == IF j > Len(D) THEN N ELSE AddDeclNodes(Add(N, e, NSN(D[j][1], D[j][2], 0)), e, D, j + 1)
 Mk(n1, D1, n2, D2, n3, D3, an, sn) ==
-    LET N1 == AddDecls(<<E(n1, "a", 0, <<>>)>>, 1, D1, 1)
+    LET N1 == AddDeclNodes(<<E(n1, "a", 0, <<>>)>>, 1, D1, 1)
         b == Len(N1) + 1
-        N2 == AddDecls(Add(N1, 1, E(n2, "b", 0, <<>>)), b, D2, 1)
+        N2 == AddDeclNodes(Add(N1, 1, E(n2, "b", 0, <<>>)), b, D2, 1)
         c == Len(N2) + 1
-        N3 == AddDecls(Add(N2, b, E(n3, "c", 0, <<>>)), c, D3, 1)
+        N3 == AddDeclNodes(Add(N2, b, E(n3, "c", 0, <<>>)), c, D3, 1)
         N4 == Add(N3, c, AT(an, "x", 0))
     \* a sibling after the childless, declaration-carrying c: names written after an empty element's end tag
     IN IF sn = "-" THEN N4 ELSE Add(N4, b, E(sn, "s", 0, <<>>))
@@ -46,5 +46,7 @@ L2Ser == L2SerRefines(F.n)
 L2Unres == L2UnresolvedRefines(F.n)
 L2CmpInv == L2CmpRefines(F.n)
 L2DedupInv == L2DedupRefines(F.n)
+\* the round trip inside the specification (XotRender)
+RT == \A x \in ElemsAndDocs(F.n) : RoundTripOk(F.n, x)
 DumpState == Dump /\ F # Blank => PrintT("STATE " \o ToJson(F))
 =============================================================================
